@@ -36,6 +36,8 @@ def _snapshot(d):
 
 
 FRAME = {"ok": True}
+ALL_EXPORTERS = ["json", "xml", "xmlforce", "jsonsort", "provn", "getprovn", "rdf", "dot", "dotlabels", "graph",
+                 "unified", "flattened", "eq", "eqother", "hash"]
 
 
 def do_export(doc, ex):
